@@ -20,7 +20,12 @@ def _eval_lambda_nofork(ip, f, args, guard=None):
     def run(scratch):
         box['v'] = ip.call(f, args, {})
         return scratch.vars
-    out = ip.speculate(run, Env({}), guard if guard is not None else z3.BoolVal(True))
+    g = ip.ctx.ghost
+    g['logic_mode'] = g.get('logic_mode', 0) + 1
+    try:
+        out = ip.speculate(run, Env({}), guard if guard is not None else z3.BoolVal(True))
+    finally:
+        g['logic_mode'] -= 1
     if out is None:
         raise Unsupported('quantifier / implication body is not a pure expression')
     return box['v']
@@ -98,7 +103,7 @@ def m_pow2(ip, n):
     n = ip.resolve(n)
     if isinstance(n, int):
         return 1 << n
-    return sym.pow2(zint(n))
+    return models.mk_pow2(ip, n)
 
 
 @_always
@@ -108,8 +113,8 @@ def m_sdecode(ip, b):
         return vocab.sdecode(b)
     n = blen(b)
     u = models.int_from_bytes_model(ip, b, 'big')
-    top = z3.BV2Int(bexpr(b)[0])
-    return z3.If(top >= 128, zint(u) - m_pow2(ip, 8 * zint(n) if not isinstance(n, int) else 8 * n), zint(u))
+    n8 = 8 * n if isinstance(n, int) else 8 * zint(n)
+    return z3.If(zint(u) >= m_pow2(ip, n8 - 1), zint(u) - m_pow2(ip, n8), zint(u))
 
 
 @_always
@@ -117,7 +122,7 @@ def m_bitlen(ip, n):
     n = ip.resolve(n)
     if isinstance(n, int):
         return n.bit_length()
-    return sym.bitlen(zint(n))
+    return models.mk_bitlen(ip, n)
 
 
 @_always
@@ -245,3 +250,106 @@ def install():
 
 
 install()
+
+
+# ---- closed forms ---------------------------------------------------------------------------------
+sdec_f = z3.Function('sdec', BYTES, I)          # two's-complement value of a byte string
+_psum = None
+
+
+def rec_funs():
+    """recursive spec functions over (array, top index, count): sum / difference / product of the
+    decoded top `k` items, item j being arr[top - j]"""
+    global _psum
+    if _psum is None:
+        arr = z3.Const('arr!r', sym.ARR_IB)
+        top, k = z3.Ints('top!r k!r')
+        ps = z3.RecFunction('psum', sym.ARR_IB, I, I, I)
+        z3.RecAddDefinition(ps, [arr, top, k],
+                            z3.If(k <= 0, z3.IntVal(0), ps(arr, top, k - 1) + sdec_f(z3.Select(arr, top - (k - 1)))))
+        pp = z3.RecFunction('pprod', sym.ARR_IB, I, I, I)
+        z3.RecAddDefinition(pp, [arr, top, k],
+                            z3.If(k <= 0, z3.IntVal(1), pp(arr, top, k - 1) * sdec_f(z3.Select(arr, top - (k - 1)))))
+        _psum = {'sum': ps, 'prod': pp}
+    return _psum
+
+
+@_always
+def m_take_top(ip, stack, n):
+    d = stack.f['deque']
+    n = ip.resolve(n)
+    if not ip.ctx.branch(zint(n) <= zint(d.ln), 'enough items'):
+        from .models import raise_
+        raise_(IndexError, 'pop from an empty deque')
+    L = zint(d.ln)
+    j = z3.Const('j!tt', I)
+    arr = z3.Lambda([j], z3.Select(d.arr, L - 1 - j))
+    ip.heap_write_guard()
+    nn = z3.If(zint(n) < 0, 0, zint(n)) if not isinstance(n, int) else max(n, 0)
+    d.ln = z3.simplify(L - nn)
+    return ZList('bytes', arr, z3.simplify(zint(nn)), kind='list')
+
+
+@_always
+def m_put_all(ip, stack, items):
+    from .models import raise_
+    from tapescript.errors import ScriptExecutionError
+    d = stack.f['deque']
+    items = ip.resolve(items)
+    if isinstance(items, (list, tuple)):
+        for it in items:
+            ip.call_method(stack, 'put', [it], {})
+        return None
+    if not (isinstance(items, ZList) and items.elem == 'bytes'):
+        raise Unsupported('put_all of non-list')
+    j = fresh('q', I)
+    n = zint(items.ln)
+    fits = z3.ForAll([j], z3.Implies(z3.And(j >= 0, j < n),
+                                     z3.Length(z3.Select(items.arr, j)) <= zint(stack.f['max_item_size'])))
+    room = z3.Or(n <= 0, zint(d.ln) + n <= zint(stack.f['max_items']))
+    if not ip.ctx.branch(z3.And(fits, room), 'all fit'):
+        raise_(ScriptExecutionError, 'stack limit')
+    ip.heap_write_guard()
+    L = zint(d.ln)
+    jj = z3.Const('j!pa', I)
+    d.arr = z3.Lambda([jj], z3.If(z3.And(jj >= L, jj < L + n), z3.Select(items.arr, jj - L), z3.Select(d.arr, jj)))
+    d.ln = z3.simplify(L + z3.If(n < 0, 0, n))
+    return None
+
+
+def _items_arr(ip, items):
+    items = ip.resolve(items)
+    if isinstance(items, ZList):
+        return items.arr, zint(items.ln)
+    if isinstance(items, (list, tuple)):
+        arr = z3.K(I, z3.Empty(BYTES))
+        for i, x in enumerate(items):
+            arr = z3.Store(arr, i, bexpr(x))
+        return arr, z3.IntVal(len(items))
+    raise Unsupported('list expected')
+
+
+@_always
+def m_all_nonempty(ip, items):
+    arr, n = _items_arr(ip, items)
+    j = fresh('q', I)
+    return z3.ForAll([j], z3.Implies(z3.And(j >= 0, j < n), z3.Length(z3.Select(arr, j)) > 0))
+
+
+@_always
+def m_fresh_bytes(ip, tag, n):
+    k = ip.ctx.count('fresh:' + str(tag))
+    e = z3.Const(f'fresh_{tag}#{k}', BYTES)
+    ip.ctx.define(z3.Implies(zint(n) >= 0, z3.Length(e) == zint(n)))
+    cn = sym.concrete_int(n)
+    return sym_bytes(e, cn if cn is not None else zint(n))
+
+
+def install2():
+    models.register_model(vocab.take_top, m_take_top)
+    models.register_model(vocab.put_all, m_put_all)
+    models.register_model(vocab.all_nonempty, m_all_nonempty)
+    models.register_model(vocab.fresh_bytes, m_fresh_bytes)
+
+
+install2()
